@@ -258,8 +258,8 @@ pub fn case(t: &mut Tape, ctx: &CaseCtx) -> CaseResult {
 pub fn run(mut run: Run) -> i32 {
     run.replay_committed(&case);
     run.enumerate("check decision x 16 params x install decision x reboot needed x reboot allowed", &[Tape::encode_choice(0, 3)], &[5, 2, 2, 2, 2, 3, 2, 2], &case);
-    run.random("random eager histories", &[Tape::encode_choice(1, 3)], run.n(60_000, 1_000_000), 600, &case);
-    run.random("scheduled runs with control requests", &[Tape::encode_choice(2, 3)], run.n(30_000, 600_000), 500, &case);
+    run.random("random eager histories", &[Tape::encode_choice(1, 3)], run.n(150_000, 1_500_000), 600, &case);
+    run.random("scheduled runs with control requests", &[Tape::encode_choice(2, 3)], run.n(90_000, 900_000), 500, &case);
     run.finish(
         RULE,
         300,
